@@ -430,8 +430,8 @@ def replay_model_set(obligation, model, meta):
     from andes.core.model.model import Model
     from contracts.packutil import Stub
     for idx, value in ((2, 0.5), ([1, 3], [0.7, 0.9]), ([3, 1, 2], [1.5, 1.6, 1.7])):
-        T = SimpleNamespace(v=np.array([0.1, 0.2, 0.3]), vin=np.array([0.1, 0.2, 0.3]))
-        other = SimpleNamespace(v=np.array([9.0, 9.0, 9.0]))
+        T = SimpleNamespace(v=np.array([0.1, 0.2, 0.3]), vin=np.array([0.1, 0.2, 0.3]), name='T')
+        other = SimpleNamespace(v=np.array([9.0, 9.0, 9.0]), name='other')
         s0 = SimpleNamespace(t_const=T, a=np.array([0, 1, 2]))
         s1 = SimpleNamespace(t_const=T, a=np.array([5, 6, 7]))
         s2 = SimpleNamespace(t_const=other, a=np.array([3, 4, 8]))
